@@ -144,7 +144,11 @@ theorem compact_view_valid {n : Nat} {rels subs : List (List Int)} {T t : Table}
     (hrel : ∀ w ∈ rels, ∀ k, T.canon k = k → k < T.len → mtrace T k w = some k)
     (hsub : ∀ w ∈ subs, mtrace T (T.canon 0) w = some (T.canon 0))
     (h : T.compact = .ok t) :
-    ∃ v, t.view = .ok v ∧ CosetP.Valid (viewTab v) n rels subs ∧ (viewTab v).size ≤ T.len := by
+    ∃ (v : List (List Int)) (φ : Nat → Nat), t.view = .ok v ∧ CosetP.Valid (viewTab v) n rels subs ∧ (viewTab v).size ≤ T.len ∧
+      φ (T.canon 0) = 0 ∧
+      (∀ k g c, g ∈ T.allGens → T.canon k = k → k < T.len → T.get k g = .ok (some c) →
+        entry (viewTab v) n (φ k) g = some (φ c)) ∧
+      (∀ k k', T.canon k = k → k < T.len → T.canon k' = k' → k' < T.len → φ k = φ k' → k = k') := by
   obtain ⟨o2n, m, num, h0, c1, c2, c3, c4, c5⟩ := compact_spec inv hcomp h
   have hgens : T.allGens = allGensOf n := by unfold Table.allGens; rw [hn]
   have hgens' : t.allGens = allGensOf n := by unfold Table.allGens; rw [c1, hn]
@@ -219,7 +223,6 @@ theorem compact_view_valid {n : Nat} {rels subs : List (List Int)} {T t : Table}
     omega
   have hsz0 : (viewTab ((List.range m).map fun j => (allGensOf n).map fun g => ((E j g : Nat) : Int))).size = m := by
     simp [viewTab]
-  refine ⟨_, hview, ?_, by rw [hsz0]; exact hmle⟩
   set tab := viewTab ((List.range m).map fun j => (allGensOf n).map fun g => ((E j g : Nat) : Int)) with htab
   have hsize : tab.size = m := by simp [htab, viewTab]
   have hentry : ∀ j, j < m → ∀ g ∈ allGensOf n, entry tab n j g = some (E j g) := fun j hj g hg =>
@@ -234,6 +237,7 @@ theorem compact_view_valid {n : Nat} {rels subs : List (List Int)} {T t : Table}
     rw [e1] at this
     injection this with this; injection this with this
     rw [this]
+  refine ⟨_, φ, hview, ?_, by rw [hsz0]; exact hmle, hφ0, hent, hinj⟩
   have hlet : ∀ g, g ∈ letters n ↔ g ∈ allGensOf n := fun g => by rw [CosetP.allGensOf_eq_letters]
   have hwr : ∀ w ∈ rels, WordOK T w := fun w hw x hx => by rw [hgens]; exact hr w hw x hx
   have hws : ∀ w ∈ subs, WordOK T w := fun w hw x hx => by rw [hgens]; exact hs w hw x hx
@@ -289,7 +293,7 @@ theorem cosetTable_valid {n : Nat} {rels subs : List (List Int)} {t : Table}
     have hgens : T.allGens = allGensOf n := by unfold Table.allGens; rw [hn]
     have hwr : ∀ w ∈ rels, WordOK T w := fun w hw x hx => by rw [hgens]; exact hr w hw x hx
     have hws : ∀ w ∈ subs, WordOK T w := fun w hw x hx => by rw [hgens]; exact hs w hw x hx
-    obtain ⟨v, h1, h2, _⟩ := compact_view_valid inv hcomp hn hr hs
+    obtain ⟨v, _, h1, h2, _⟩ := compact_view_valid inv hcomp hn hr hs
       (fun w hw k hk hkl => closed_word inv hcomp (hwr w hw) hk hkl (hclosed.1 k hkl w hw))
       (fun w hw => by
         have hcl : scanAndMerge T w (T.canon 0) = .ok (T, false) := by
